@@ -157,7 +157,11 @@ def run_shard(sh, rec):
                                     elif role == "scratch":
                                         a[...] = (rng.standard_normal(a.shape) * 50).astype(a.dtype)
                                     elif k in ("char_field", "level_set_field"):
-                                        pass  # structured inputs (indicator in [0,1], level set with exact +-width entries) stay as generated
+                                        # structured inputs get NEW admissible values in the SAME array object (moving body: indicator in
+                                        # [0,1] with exact 0/1, level set with exact +-width entries): anything remembered per array object
+                                        # (a blending weight cached while `char_field is` the retained array) is stale now
+                                        a[...] = A._values(a.shape, "unit" if k == "char_field" else "levelset").astype(a.dtype)
+                                        rec.count("structured_inputs_refreshed_in_place")
                                     elif a.dtype.kind != "c":
                                         a[...] = rng.standard_normal(a.shape).astype(a.dtype)
                                     else:
@@ -188,6 +192,9 @@ def run_shard(sh, rec):
                                         stacks[k] = np.stack([a] * 3)
                                         if role in ("in", "inout") and k not in ("char_field", "level_set_field"):
                                             stacks[k][...] = rng.standard_normal(stacks[k].shape).astype(a.dtype)
+                                        elif k in ("char_field", "level_set_field"):
+                                            for j in range(3):
+                                                stacks[k][j] = A._values(a.shape, "unit" if k == "char_field" else "levelset").astype(a.dtype)
                                 for j in range(3):
                                     c2 = _copy.copy(case)
                                     c2.kw = {k: (stacks[k][j] if k in stacks else v) for k, v in case.kw.items()}
